@@ -17,7 +17,7 @@ RULE = (
     "another node was in flight, or a node was ready while a sequential node was in flight."
 )
 ASSUMPTIONS = ["entry/exit of every node function is recorded under one lock with a global sequence number"]
-BUDGET = {"quick": {"shards": 4, "seconds": 40}, "thorough": {"shards": 16, "seconds": 420}}
+BUDGET = {"quick": {"shards": 8, "seconds": 40}, "thorough": {"shards": 16, "seconds": 420}}
 
 
 def _nt(case: Dict[str, Any], M: Model, stats: List[Dict[str, Any]]) -> bool:
